@@ -5,6 +5,7 @@ import (
 	"fmt"
 	"slices"
 	"strings"
+	"sync"
 
 	"github.com/nspcc-dev/neo-go/pkg/crypto/keys"
 	"github.com/nspcc-dev/neo-go/pkg/smartcontract/callflag"
@@ -99,14 +100,19 @@ func decidedByMethods(ps []permSpec, callee string, groups []string) bool {
 	return anyMatch && !wildMatch
 }
 
-// onlyGroupListDenies reports the shape of the known finding: the specification denies, and at least one GROUP
-// permission matches the callee by membership with an explicit method list (which the implementation ignores).
+// knownShape is the shape of the recorded finding for one permission: a GROUP permission that matches the callee by
+// membership and whose explicit method list does not contain the method (the implementation ignores the list).
+func knownShape(p permSpec, callee string, groups []string, method string) bool {
+	return strings.HasPrefix(p.Desc, "group:") && specMatchesCallee(p, callee, groups) && !specPermAllows(p, callee, groups, method)
+}
+
+// onlyGroupListDenies: the specification denies the call and some permission has the known shape.
 func onlyGroupListDenies(ps []permSpec, callee string, groups []string, method string) bool {
 	if specAllowed(ps, callee, groups, method) {
 		return false
 	}
 	for _, p := range ps {
-		if strings.HasPrefix(p.Desc, "group:") && specMatchesCallee(p, callee, groups) {
+		if knownShape(p, callee, groups, method) {
 			return true
 		}
 	}
@@ -114,6 +120,8 @@ func onlyGroupListDenies(ps []permSpec, callee string, groups []string, method s
 }
 
 const knownGroupKey = "group-permission-ignores-methods"
+
+var knownOnce sync.Once
 
 var (
 	descPool   = []string{"*", "hash:T1", "hash:T3", "hash:X", "group:G", "group:H", "group:Z"}
@@ -129,6 +137,8 @@ func mkPerm(d string, form int) permSpec {
 
 // callerFamily is the bounded family of caller manifests deployed by the setup: no permission at all, every
 // single permission (7 descriptors x 6 method forms), and 24 two-permission manifests.
+var nCallers = len(callerFamily())
+
 func callerFamily() []callerSpec {
 	var out []callerSpec
 	add := func(ps ...permSpec) {
@@ -258,8 +268,8 @@ type PermCase struct {
 }
 
 func genPermSpec(t *rapid.T) permSpec {
-	d := rapid.SampledFrom(descPool).Draw(t, "desc")
-	switch rapid.IntRange(0, 3).Draw(t, "form") {
+	d := pick(t, descPool, "desc")
+	switch uniform(t, 4, "form") {
 	case 0:
 		return permSpec{Desc: d, Wild: true}
 	default:
@@ -270,9 +280,9 @@ func genPermSpec(t *rapid.T) permSpec {
 func genPermCase(t *rapid.T) PermCase {
 	c := PermCase{
 		Perms:  rapid.SliceOfN(rapid.Custom(genPermSpec), 0, 3).Draw(t, "perms"),
-		Callee: rapid.IntRange(0, len(calleeNames)-1).Draw(t, "callee"),
+		Callee: uniform(t, len(calleeNames), "callee"),
 		Groups: rapid.SliceOfNDistinct(rapid.SampledFrom([]string{"G", "H", "Z"}), 0, 2, rapid.ID[string]).Draw(t, "groups"),
-		Method: rapid.SampledFrom([]string{"m", "n", "s", "other", ""}).Draw(t, "method"),
+		Method: pick(t, []string{"m", "n", "s", "other", ""}, "method"),
 		Stored: rapid.Bool().Draw(t, "stored"),
 	}
 	for i := range c.Perms {
@@ -293,11 +303,7 @@ func checkPermCase(c PermCase, o *vt.Obs) error {
 	}
 	callee := calleeNames[c.Callee]
 	hash := w.hashOf(callee)
-	if vt.Known(knownGroupKey) && onlyGroupListDenies(c.Perms, callee, c.Groups, c.Method) {
-		o.Excluded()
-		o.Label("excluded/known-group-finding")
-		return nil
-	}
+	known := vt.Known(knownGroupKey)
 	// Callee manifest: only Groups matter to permission matching.
 	cm := manifest.NewManifest(callee)
 	for _, g := range c.Groups {
@@ -333,6 +339,16 @@ func checkPermCase(c PermCase, o *vt.Obs) error {
 		mm.Permissions = back
 	}
 	for i, p := range c.Perms {
+		if known && knownShape(p, callee, c.Groups, c.Method) {
+			if mm.Permissions[i].IsAllowed(hash, cm, c.Method) {
+				knownOnce.Do(func() {
+					vt.KnownFinding(knownGroupKey, fmt.Sprintf("re-confirmed: Permission.IsAllowed(%s, callee groups %v, method %q) = true: the method list of a group permission is ignored", p, c.Groups, c.Method))
+				})
+			}
+			o.Excluded()
+			o.Label("excluded/known-group-finding")
+			continue
+		}
 		want := specPermAllows(p, callee, c.Groups, c.Method)
 		got := mm.Permissions[i].IsAllowed(hash, cm, c.Method)
 		if got != want {
@@ -342,6 +358,10 @@ func checkPermCase(c PermCase, o *vt.Obs) error {
 		o.Units(1)
 	}
 	want := specAllowed(c.Perms, callee, c.Groups, c.Method)
+	if known && onlyGroupListDenies(c.Perms, callee, c.Groups, c.Method) {
+		o.Excluded()
+		return nil
+	}
 	if got := mm.CanCall(hash, cm, c.Method); got != want {
 		return fmt.Errorf("Manifest.CanCall: permissions %v against callee %s (groups %v) method %q: got %v, the property says %v",
 			c.Perms, callee, c.Groups, c.Method, got, want)
@@ -371,10 +391,10 @@ type PermCallCase struct {
 
 func genPermCallCase(t *rapid.T) PermCallCase {
 	return PermCallCase{
-		Caller: rapid.IntRange(0, len(callerFamily())-1).Draw(t, "caller"),
-		Callee: rapid.IntRange(0, 3).Draw(t, "callee"),
-		Method: rapid.SampledFrom([]string{"m", "m", "n", "n", "s"}).Draw(t, "method"),
-		Flags:  rapid.SampledFrom([]int{15, 15, 15, 5, 1, 0}).Draw(t, "flags"),
+		Caller: uniform(t, nCallers, "caller"),
+		Callee: uniform(t, 4, "callee"),
+		Method: pick(t, []string{"m", "m", "n", "n", "s"}, "method"),
+		Flags:  pick(t, []int{15, 15, 15, 5, 1, 0}, "flags"),
 	}
 }
 
